@@ -163,7 +163,14 @@ func (w *world) valid(op string) bool {
 // runOps drives one history; returns the executed ops and one observation token per op.
 func runOps(c *hx.Ctx, kind string, maxConn, maxReq uint32, next func(w *world, step int) string) (ops, obs []string, w *world) {
 	w = newWorld(kind, maxConn, maxReq)
-	defer w.close()
+	hung := false
+	defer func() {
+		if hung {
+			w.up.stop() // pool.Close() still holds the pool's mutex: closing MOSN-side connections would block too
+		} else {
+			w.close()
+		}
+	}()
 	for step := 0; ; step++ {
 		op := next(w, step)
 		if op == "" || !w.valid(op) {
@@ -173,6 +180,7 @@ func runOps(c *hx.Ctx, kind string, maxConn, maxReq uint32, next func(w *world, 
 		ops = append(ops, op)
 		if res == "hang" {
 			obs = append(obs, res)
+			hung = true
 			break
 		}
 		obs = append(obs, res+";"+w.snapshot())
@@ -356,7 +364,7 @@ func Run(c *hx.Ctx) {
 	// seeded random histories. hx.NewRng(k+1) is hx.NewRng(k) advanced by one draw, so neighbouring seeds would
 	// replay the same histories once their draw positions re-align: fork a well-mixed generator first.
 	rng := c.Rng.Fork()
-	n := c.N(260, 2200)
+	n := c.N(500, 6000)
 	for i := 0; i < n; i++ {
 		k := kinds[rng.Intn(2)]
 		mc := uint32(rng.Intn(3))
